@@ -134,7 +134,10 @@ func (sb *seqbag) sampleSeqBag(nb int) (*seqbag, error) {
 	permutation := rand.Perm(sb.NbSequences())
 	for i := 0; i < nb; i++ {
 		seq := sb.seqs[permutation[i]]
-		sample.AddSequenceChar(seq.name, seq.SequenceChar(), seq.Comment())
+		// the sample owns its data
+		tmpseq := make([]uint8, len(seq.SequenceChar()))
+		copy(tmpseq, seq.SequenceChar())
+		sample.AddSequenceChar(seq.name, tmpseq, seq.Comment())
 	}
 	return sample, nil
 }
